@@ -174,7 +174,7 @@ class Ctx:
         log("GEN %s: %d behaviours (%.0fs)" % (cfg, n, dt))
         return path, n
 
-    def trace(self, name, trace_file, runs=1, timeout=1500, cfg=None, heap="3g", label=None):
+    def trace(self, name, trace_file, runs=1, timeout=600, cfg=None, heap="3g", label=None):
         """trace validation: returns True if TLC explains every line of trace_file"""
         cfg = cfg or name + ".cfg"
         env = {"JAVA_TOOL_OPTIONS": "-Xss1g -Dtlc2.tool.queue.IStateQueue=StateDeque", "TRACE": trace_file}
